@@ -124,16 +124,13 @@ class CM:
 @rule('C10', 'R6', 7, 'PDF structure: /Length, xref offsets, startxref, obj/endobj pairing, entry count and /Size')
 def r6(fx):
     fn = fx.fn('writers', 'write_pdf')
-    it = Interp()
-    w = single([s for s in fn.body if isinstance(s, ast.With)], 'output block of write_pdf')
-    stream = Stream()
-    part = __import__('functools').partial
-    genv = callable_env(fx.forest, 'writers', it, {'writable': lambda out, mode, encoding=None: CM(stream), 'partial': part})
-    ws = FuncVal(fx.fn('writers', 'write_pdf.write_string'), genv, it)
-    blob = b'G' * 37
-    e = dict(genv, out='<out>', graphic=blob, width=58.5, height=58.5, creation_date="20260101000000+00'00'", write_string=ws)
-    it.block([w], e)
-    data = bytes(stream.buf)
+    it = Interp(max_steps=5_000_000)
+    # the whole serialiser is rendered (marker runs, tagging zlib stand-in, recording output, see below)
+    txt, _ = _render(fx, it, 'write_pdf', 2.5, '#0000ff', '#ff0000')
+    data = txt.encode('latin1')
+    zm = re.search(rb'<Z>.*?</Z>', data, re.S)
+    need(zm is not None, 'write_pdf: the content stream is not the output of zlib.compress')
+    blob = zm.group(0)
     yield ob('PDF header', data.startswith(b'%PDF-1.'), fn, got=data[:9], want=b'%PDF-1.x')
     objs = [(m.start(), int(m.group(1))) for m in re.finditer(rb'(?<![0-9])(\d+) 0 obj', data)]
     ends = len(re.findall(rb'endobj', data))
@@ -142,8 +139,8 @@ def r6(fx):
     m = re.search(rb'/Length (\d+)', data)
     s0 = data.find(b'stream\r\n') + 8
     s1 = data.find(b'\r\nendstream')
-    yield ob('/Length = length of the content stream', m is not None and int(m.group(1)) == 37 and data[s0:s1] == blob, fn,
-             got=(m.group(1) if m else None, s1 - s0), want=(b'37', 37))
+    yield ob('/Length = length of the content stream', m is not None and int(m.group(1)) == len(blob) and data[s0:s1] == blob, fn,
+             got=(m.group(1) if m else None, s1 - s0), want=(len(blob), len(blob)))
     xr = data.find(b'xref\r\n')
     mm = re.search(rb'startxref\r\n(\d+)\r\n%%EOF', data)
     yield ob('startxref = offset of the xref table', mm is not None and int(mm.group(1)) == xr and xr > 0, fn, got=(mm.group(1) if mm else None, xr), want='equal')
@@ -155,9 +152,8 @@ def r6(fx):
     yield ob('every xref offset points at its `N 0 obj`', offs_ok, fn, got=[int(o) for o, g in entries], want=[p for p, n in objs])
     tr = re.search(rb'trailer <</Size (\d+)/Root 1 0 R/Info (\d+) 0 R>>', data)
     yield ob('trailer: /Size = objects + 1, /Info is the last object, MediaBox from width/height',
-             tr is not None and int(tr.group(1)) == len(objs) + 1 and int(tr.group(2)) == len(objs) and b'/MediaBox [0 0 58.5 58.5]' in data, fn,
+             tr is not None and int(tr.group(1)) == len(objs) + 1 and int(tr.group(2)) == len(objs) and b'/MediaBox [0 0 72.5 72.5]' in data, fn,
              got=(tr.groups() if tr else None), want=(len(objs) + 1, len(objs)))
-    g = single([s for s in fn.body if isinstance(s, ast.Assign) and ast.unparse(s.targets[0]) == 'graphic'], 'content stream')
     fx.info['C10.R6 bytes interpreted'] = len(data)
 
 
@@ -350,6 +346,12 @@ def r2(fx):
                 want_col = ([] if light is None else (['0 0 0 setrgbcolor'] if dark == '#000' else [])) + ([] if dark == '#000' else ['0.000000 0.000000 1.000000 setrgbcolor'])
                 if col != want_col:
                     probs.append(f'colour lines {col}, expected {want_col}')
+                elif bg and col:
+                    # the background fill sets the current colour: the stroke colour has to be set after it (and before the path is stroked)
+                    ci = [i for i, l in enumerate(lines) if l.endswith('setrgbcolor')]
+                    si = lines.index('stroke') if 'stroke' in lines else -1
+                    if not (bg[0] < ci[-1] < si):
+                        probs.append('the stroke colour is not set between the background fill and `stroke`')
                 if 'stroke' not in lines:
                     probs.append('no stroke')
                 yield ob(f'EPS {tag}', not probs, fx.fn('writers', 'write_eps'), got='; '.join(probs) or 'as required', want='as required')
